@@ -563,8 +563,10 @@ func c13Err(err error) string {
 		return "frrreloadU"
 	case strings.HasPrefix(m, "failed to save startup config") && strings.Contains(m, "restoring the running configuration failed too"):
 		return "startupsaveU"
-	case strings.HasPrefix(m, "FRR reload failed"):
+	case strings.HasPrefix(m, "FRR reload failed") || strings.HasPrefix(m, "frr-reload failed"):
 		return "frrreload"
+	case strings.HasPrefix(m, "failed to write config file"):
+		return "savefail"
 	case strings.HasPrefix(m, "failed to save startup config"):
 		return "startupsave"
 	case strings.HasPrefix(m, "failed to save version"):
@@ -836,6 +838,34 @@ func c13RunCase(line string, root string, idx int, templates string) (res string
 		case "b":
 			v, _ := strconv.Atoi(f[p+1])
 			r = c13Err(cd.Rollback(v))
+			p += 2
+		case "S": // SaveStartup(), optionally with an unwritable startup file
+			if f[p+1] == "1" {
+				cd.startupConfigPath = badStartup
+			}
+			r = c13Err(cd.SaveStartup())
+			cd.startupConfigPath = goodStartup
+			p += 2
+		case "Z": // ResetForRecovery()
+			cd.ResetForRecovery()
+			r = "ok"
+			p++
+		case "F": // ReloadFRR() with the first reload outcome: - ok, r fails, R takes the config and fails
+			ctl := "--reload-ok\n"
+			if f[p+1] == "r" {
+				ctl = "--reload\n"
+			} else if f[p+1] == "R" {
+				ctl = "--reload-partial\n"
+			}
+			os.WriteFile(env.frrCtl, []byte(ctl), 0644)
+			os.Remove(env.frrLog)
+			r = c13Err(cd.ReloadFRR())
+			os.WriteFile(env.frrCtl, nil, 0644)
+			if data, e := os.ReadFile(env.frrLog); e == nil {
+				for _, l := range strings.Fields(string(data)) {
+					env.trace = append(env.trace, "F:"+strings.TrimPrefix(l, "--"))
+				}
+			}
 			p += 2
 		case "l":
 			// LoadConfig(session, a copy of the candidate [with other subscriber groups])
